@@ -49,3 +49,5 @@ for mid in ids:
     json.dump(res, open(os.path.join(d, "campaign.json"), "w"), indent=1)
     print(mid, "VIOLATION" if res.get("violation") else "MISSED", "input" if res.get("found_input") else "-",
           res.get("replay_on_mutant_fails"), res.get("replay_on_original_passes"), res.get("wall_s"), flush=True)
+# the generated files (Gen/) now describe the last mutant: bring them back to the repository itself
+subprocess.run([os.path.join(ROOT, "bin", "setup")], cwd=ROOT, capture_output=True)
